@@ -6,9 +6,11 @@
    PART 1 (this section): the three small stores.
    PART 2: the broker level journal and `recover`.
 
-   The behaviours that deviate from the durability statement (C09) are switchable
-   (`fixes`): `cur_code` is the code as it is; flipping a flag gives the repaired behaviour,
-   for which the unconditional theorem is proved (Proofs/CrashP.v). *)
+   Three behaviours that deviated from the durability statement (C09) are switchable
+   (`fixes`): `old_code` is /repo before the repairs 41101f9 (HDEL arguments), 9588927 (client
+   id at load) and 892f3ad (unack ids reloaded); `cur_code` is the code as it is now, with
+   all three repaired.  The theorems of Proofs/CrashP.v are stated for every setting; the old
+   behaviour is kept for the regression examples of Props/C09.v. *)
 From Coq Require Import List NArith ZArith Bool Arith.
 Import ListNotations.
 From GM Require Import Base.Topic Base.Msg Model.SubTrie Model.Queue Model.Redis Model.RQueue.
@@ -17,11 +19,12 @@ Open Scope N_scope.
 Record fixes := {
   fix_hdel : bool;      (* Unsubscribe passes the topics as separate HDEL fields *)
   fix_trim : bool;      (* Init registers the subscriptions under the unmodified client id *)
-  fix_unack : bool }.   (* a fresh unack store loads the stored packet ids *)
+  fix_unack : bool }.   (* unack.Init(cleanStart=false) reloads the stored packet ids (HKEYS) *)
 
-Definition cur_code : fixes := {| fix_hdel := false; fix_trim := false; fix_unack := false |}.
+Definition old_code : fixes := {| fix_hdel := false; fix_trim := false; fix_unack := false |}.
 Definition all_fixed : fixes := {| fix_hdel := true; fix_trim := true; fix_unack := true |}.
-(* the behaviour of /repo as it is now: the one place to change when a defect is repaired *)
+Definition cur_code : fixes := all_fixed.
+(* the behaviour of /repo as it is now: the one place to change when the code changes *)
 Definition code_fixes : fixes := cur_code.
 
 (* ---------- keys ---------- *)
@@ -141,11 +144,12 @@ Fixpoint delN (x : N) (l : list N) : list N := match l with [] => [] | y :: r =>
 (* state: the in-memory cache of the store object.  Result: new cache, answer of Set, commands *)
 Definition ru_step (fx : fixes) (c : cid) (s : rstore) (cache : list N) (o : ruop) : list N * option bool * list rcmd :=
   match o with
-  | RUInit clean => if clean then ([], None, [CDel (unack_key c)]) else (cache, None, [])
+  | RUInit clean => if clean then ([], None, [CDel (unack_key c)])
+                    else (if fix_unack fx then stored_unack c s ++ cache else cache, None, [])
   | RUSet id => if memN id cache then (cache, Some true, [])
                 else (id :: cache, Some false, [CHSet (unack_key c) [(dec id, BRaw ONE)]])
   | RURemove id => (delN id cache, None, [CHDel (unack_key c) [dec id]])
-  | RURestart => (if fix_unack fx then stored_unack c s else [], None, [])
+  | RURestart => ([], None, [])
   end.
 
 Fixpoint ru_run (fx : fixes) (c : cid) (s : rstore) (cache : list N) (ops : list ruop) : list (option bool) * list rcmd :=
@@ -158,8 +162,11 @@ Fixpoint ru_run (fx : fixes) (c : cid) (s : rstore) (cache : list N) (ops : list
   end.
 
 (* ====================================================================================
-   PART 2: the broker.  Sessions, the in-memory subscription index (flat: Model/SubSpec.v,
-   which the trie refines - Props/C02.v), per-session queue and unack objects, and for
+   PART 2: the broker.  Sessions, the in-memory subscription index (flat: client id ->
+   full topic name -> subscription; the trie of persistence/subscription/mem refines the flat
+   map keyed by (client, share name, filter) - Props/C02.v - and the broker only hands it
+   validated filters, for which (share name, filter) and the full name determine each
+   other), per-session queue and unack objects, and for
    every client event the journal it produces: storage commands interleaved with the
    packets the broker writes.  Handlers run to completion (the harness waits for the
    broker to be quiet after every client packet); the asynchronous delivery loop of a
@@ -180,9 +187,18 @@ Record bclient := {
   bc_q : option rq;           (* srv.queueStore[cid] *)
   bc_ua : option (list N) }.  (* srv.unackStore[cid]: the cache of the store object *)
 
+(* the subscription index: client id -> (full topic name -> subscription) *)
+Definition bsubs := list (cid * list (str * sub)).
+Definition bs_table (c : cid) (m : bsubs) : list (str * sub) := match aget c m with Some tb => tb | None => [] end.
+Definition bs_get (c : cid) (t : str) (m : bsubs) : option sub := aget t (bs_table c m).
+Definition bs_sub (c : cid) (s : sub) (m : bsubs) : bsubs := aset c (aset (full_topic s) s (bs_table c m)) m.
+Definition bs_unsub (c : cid) (t : str) (m : bsubs) : bsubs := aset c (adel t (bs_table c m)) m.
+Definition bs_clear (c : cid) (m : bsubs) : bsubs := adel c m.
+Definition bs_entries (m : bsubs) : list (cid * sub) := flat_map (fun ct => map (fun ts => (fst ct, snd ts)) (snd ct)) m.
+
 Record broker := {
   b_store : rstore;
-  b_subs : spec;                         (* the subscription index *)
+  b_subs : bsubs;                        (* the subscription index *)
   b_clients : list (cid * bclient) }.
 
 Definition b_get (c : cid) (b : broker) : option bclient := aget c (b_clients b).
@@ -190,7 +206,7 @@ Definition b_set (c : cid) (x : bclient) (b : broker) : broker :=
   {| b_store := b_store b; b_subs := b_subs b; b_clients := aset c x (b_clients b) |}.
 Definition b_with_store (s : rstore) (b : broker) : broker :=
   {| b_store := s; b_subs := b_subs b; b_clients := b_clients b |}.
-Definition b_with_subs (sp : spec) (b : broker) : broker :=
+Definition b_with_subs (sp : bsubs) (b : broker) : broker :=
   {| b_store := b_store b; b_subs := sp; b_clients := b_clients b |}.
 
 Definition broker0 : broker := {| b_store := []; b_subs := []; b_clients := [] |}.
@@ -251,9 +267,9 @@ Definition sess_get (c : cid) (s : rstore) : option (cid * N) :=
   end.
 
 (* ---------- delivery ---------- *)
-Definition sub_matches (topic : str) (publisher : cid) (e : skey * sub) : bool :=
-  let '((c, g, f), s) := e in
-  is_empty g && topic_match topic f && negb (s_nl s && str_eqb c publisher).
+Definition sub_matches (topic : str) (publisher : cid) (e : cid * sub) : bool :=
+  let '(c, s) := e in
+  is_empty (s_share s) && topic_match topic (s_filter s) && negb (s_nl s && str_eqb c publisher).
 
 Fixpoint insert_sorted (x : N) (l : list N) : list N :=
   match l with
@@ -265,8 +281,8 @@ Definition sort_ids (l : list N) : list N := fold_right insert_sorted [] l.
 (* onlyonce mode: one copy per client, QoS = min(publish QoS, highest matching subscription QoS),
    all non-zero subscription identifiers of the matching subscriptions (the order follows
    Go's map iteration; it is canonicalised - sorted - on both sides) *)
-Definition client_match (topic : str) (publisher c : cid) (sp : spec) : option (N * list N) :=
-  match filter (fun e => str_eqb (fst (fst (fst e))) c && sub_matches topic publisher e) sp with
+Definition client_match (topic : str) (publisher c : cid) (sp : bsubs) : option (N * list N) :=
+  match filter (fun e => str_eqb (fst e) c && sub_matches topic publisher e) (bs_entries sp) with
   | [] => None
   | ms => Some (fold_left N.max (map (fun e => s_qos (snd e)) ms) 0,
                 sort_ids (filter (fun i => negb (i =? 0)) (map (fun e => s_id (snd e)) ms)))
@@ -281,7 +297,7 @@ Definition MSGEXP : N := 7200000.
 Definition mk_elem (m : msg) : elem := {| e_tag := 0; e_at := 0; e_expiry := Some MSGEXP; e_body := QPub m |}.
 
 (* Add to every matching session's queue, in the order of the client table *)
-Fixpoint deliver (topic payload : str) (qos : N) (publisher : cid) (sp : spec)
+Fixpoint deliver (topic payload : str) (qos : N) (publisher : cid) (sp : bsubs)
                  (cl : list (cid * bclient)) (s : rstore) : list (cid * bclient) * rstore * list rcmd :=
   match cl with
   | [] => ([], s, [])
@@ -296,7 +312,7 @@ Fixpoint deliver (topic payload : str) (qos : N) (publisher : cid) (sp : spec)
       end
   end.
 
-Definition any_match (topic : str) (publisher : cid) (sp : spec) (cl : list (cid * bclient)) : bool :=
+Definition any_match (topic : str) (publisher : cid) (sp : bsubs) (cl : list (cid * bclient)) : bool :=
   existsb (fun cx => match bc_q (snd cx), client_match topic publisher (fst cx) sp with Some _, Some _ => true | _, _ => false end) cl.
 
 (* ---------- the delivery loop of a connection ---------- *)
@@ -341,9 +357,12 @@ Definition remove_session (id : cid) (b : broker) : broker * list rcmd :=
             | Some x => aset id {| bc_online := false; bc_q := None; bc_ua := bc_ua x |} (b_clients b)
             | None => b_clients b
             end in
-  ({| b_store := exec_all (b_store b) cmds; b_subs := sp_del_client id (b_subs b); b_clients := cl |}, cmds).
+  ({| b_store := exec_all (b_store b) cmds; b_subs := bs_clear id (b_subs b); b_clients := cl |}, cmds).
 
 Definition SESSION_CAP : N := 7200.
+
+(* redis_queue.New on a store: the length of the list is read at once *)
+Definition rq_fresh (s : rstore) (max : nat) (ifexp : N) (c : cid) : rq := r_q (rq_restart s (rq_new max ifexp c)).
 
 Definition with_q (x : bclient) (q : rq) : bclient := {| bc_online := bc_online x; bc_q := Some q; bc_ua := bc_ua x |}.
 
@@ -380,7 +399,12 @@ Definition bstep (fx : fixes) (b : broker) (ev : bevent) : broker * list jentry 
                     let '(s3, q3, j3) := poll_inflight 3 c s2 (r_q ri) in
                     let '(s4, q4, j4) :=
                       if (rq_cur q3 <? rq_len q3)%Z then poll_new c pids s3 q3 else (s3, q3, []) in
-                    (b_set c {| bc_online := true; bc_q := Some q4; bc_ua := bc_ua x |} (b_with_store s4 b1),
+                    (* ua.Init(false): the stored ids awaiting PUBREL are (re)loaded *)
+                    let ua := match bc_ua x with
+                              | Some u => Some (if fix_unack fx then stored_unack c (b_store b1) ++ u else u)
+                              | None => None
+                              end in
+                    (b_set c {| bc_online := true; bc_q := Some q4; bc_ua := ua |} (b_with_store s4 b1),
                      map JCmd cmds ++ [JOut (OConnack c true)] ++ j3 ++ j4)
                 | None => (b, [])
                 end
@@ -410,14 +434,14 @@ Definition bstep (fx : fixes) (b : broker) (ev : bevent) : broker * list jentry 
   | ESubscribe c pid subs =>
       if negb (online c) then (b, []) else
       let cmds := sop_cmds fx (SSub c subs) in
-      ({| b_store := exec_all (b_store b) cmds; b_subs := fold_left spec_step (map (OSub c) subs) (b_subs b);
+      ({| b_store := exec_all (b_store b) cmds; b_subs := fold_left (fun m s => bs_sub c s m) subs (b_subs b);
           b_clients := b_clients b |},
        map JCmd cmds ++ [JOut (OSuback c pid)])
   | EUnsubscribe c pid topics =>
       if negb (online c) then (b, []) else
       (* the handler calls Unsubscribe once per topic *)
       let cmds := concat (map (fun t => sop_cmds fx (SUnsub c [t])) topics) in
-      ({| b_store := exec_all (b_store b) cmds; b_subs := fold_left spec_step (map (OUnsub c) topics) (b_subs b);
+      ({| b_store := exec_all (b_store b) cmds; b_subs := fold_left (fun m t => bs_unsub c t m) topics (b_subs b);
           b_clients := b_clients b |},
        map JCmd cmds ++ [JOut (OUnsuback c pid)])
   | EPublish c qos pid topic payload =>
@@ -504,18 +528,34 @@ Fixpoint stored_sessions (s : rstore) (keys : list str) : list (cid * N) :=
 Definition has_wrongtype_session (s : rstore) : bool :=
   existsb (fun kv => has_prefix_str SESS_PREFIX (fst kv) && match snd kv with RList _ => true | RHash _ => false end) s.
 
+(* sub.Init(clientIDs): HGETALL sub:<id>, decode, SubscribeLocked under the (trimmed) id.
+   None = start-up fails (wrong type / undecodable value) *)
+Fixpoint load_bsubs (fx : fixes) (s : rstore) (cids : list cid) (m : bsubs) : option bsubs :=
+  match cids with
+  | [] => Some m
+  | c :: r =>
+      match hgetall (sub_key c) s with
+      | None => None
+      | Some h =>
+          match subs_of_hash h with
+          | Some l => load_bsubs fx s r (fold_left (fun m x => bs_sub (load_cid fx c) x m) l m)
+          | None => None
+          end
+      end
+  end.
+
 (* None = start-up fails *)
 Definition recover (fx : fixes) (s : rstore) : option broker :=
   if has_wrongtype_session s then None else
   let sess := stored_sessions s (scan_prefix SESS_PREFIX s) in
   let cids := map fst sess in
-  match load_subs fx s cids with
+  match load_bsubs fx s cids [] with
   | None => None
-  | Some ops =>
+  | Some m =>
       Some {| b_store := s;
-              b_subs := fold_left spec_step ops [];
+              b_subs := m;
               b_clients := fold_left (fun cl c =>
                              aset c {| bc_online := false;
-                                       bc_q := Some (rq_new MAXQ IFEXP c);
-                                       bc_ua := Some (if fix_unack fx then stored_unack c s else []) |} cl) cids [] |}
+                                       bc_q := Some (rq_fresh s MAXQ IFEXP c);
+                                       bc_ua := Some [] |} cl) cids [] |}
   end.
